@@ -58,7 +58,8 @@ Inductive agg :=
   (* tally(#a, #b) with several arguments is three stores: one per argument (dictionary 100+i, skipped when the value is blank;
      a missing cell counts as the text None) and one under the values joined by '|' (dictionary 99, "tally") *)
   | TallyS (i : nat)
-  | TallyC (i j : nat).
+  | TallyC (i j : nat)
+  | CounterE (nm : Z) (e : nexp).            (* counter.nm(e): the increment is the argument's value on this line *)
 Inductive action := AssignN (x : Z) (e : nexp) | AssignS (x : Z) (e : sexp) | PushN (k : Z) (e : nexp) | PushS (k : Z) (e : sexp) | Pop (x k : Z)
   | Agg (g : agg).
 Inductive comp := CB (b : bexp) | CAct (a : action) | CWhen (b : bexp) (a : action) | CAgg (g : agg).
@@ -118,7 +119,7 @@ Definition upper_c (c : Z) : Z := if (97 <=? c) && (c <=? 122) then c - 32 else 
 (** counter.nm(...) creates its variable (0) when the csvpath is validated: the matcher is built (and validated) when the
     first line reaches the match part, so a run that offers no line leaves no such variable *)
 Definition agg_init (g : agg) (vs : list (Z * value)) : list (Z * value) :=
-  match g with Counter nm _ => match lookup nm vs with Some _ => vs | None => vs ++ [(nm, VI 0)] end | _ => vs end.
+  match g with Counter nm _ | CounterE nm _ => match lookup nm vs with Some _ => vs | None => vs ++ [(nm, VI 0)] end | _ => vs end.
 Definition comp_init (vs : list (Z * value)) (c : comp) : list (Z * value) :=
   match c with CAgg g | CAct (Agg g) | CWhen _ (Agg g) => agg_init g vs | _ => vs end.
 Definition init_vars (cs : list comp) (vs : list (Z * value)) : list (Z * value) := fold_left comp_init cs vs.
@@ -272,6 +273,8 @@ Section Eval.
     | TallyC i j =>
         let key := tally_text l i ++ [124] ++ tally_text l j in
         (with_mx s (dset m 99 key (VI (num_of (dget m 99 key) + 1))), true)
+    | CounterE nm e =>
+        (with_mx s (mkMx (update nm (VI (num_of (lookup nm (vars m)) + fst (neval s l e))) (vars m)) (stacks m) (dicts m)), AND)
     end.
 
   Definition do_action (s : cst) (l : line ustring) (a : action) : cst :=
